@@ -13,6 +13,7 @@
 //   enc=dynA   : nmtools_list< either<int, either<ellipsis_t, array<int,3>>> > (all ranges all-int)
 // answer:   ok shape=<dst shape> idx=<src index per dst index, row-major over dst shape>      (level=index)
 //           ok shape=<dst shape> data=<flat source id per dst element>                        (level=view)
+//           with at=<dst index>: idx=<src index of that one destination index>
 //           idx=big  when the (possibly garbage) dst shape has more than 4096 elements
 //           data=oob@<k> when the k-th element's source index leaves the source shape (element not read)
 #pragma once
@@ -98,7 +99,8 @@ inline std::string fmtu(const uvec& v) {
 }
 // number of elements of a (possibly garbage) shape, saturating
 inline size_t numel_sat(const uvec& s, size_t cap) {
-    size_t p = 1; for (auto e : s) { if (e == 0) return 0; if (e > cap || p > cap) return cap + 1; p *= e; } return p;
+    for (auto e : s) if (e == 0) return 0;
+    size_t p = 1; for (auto e : s) { if (e > cap || p > cap) return cap + 1; p *= e; } return p;
 }
 inline uvec unravel(size_t k, const uvec& s) {
     uvec r(s.size()); for (size_t i = s.size(); i-- > 0;) { r[i] = k % s[i]; k /= s[i]; } return r;
@@ -108,10 +110,13 @@ constexpr size_t MAX_ELEMS = 4096;
 
 // index level: shape function + index function for every destination index.
 //   shape_f() -> dst shape container ; index_f(dst idx vector) -> src index container
+// `at` (optional request argument at=<dst index>): only that destination index is mapped (large extents)
+inline const uvec*& at_arg() { static const uvec* p = nullptr; return p; }
 template <typename SF, typename IF>
 inline std::string answer_index(const uvec& /*src*/, SF shape_f, IF index_f) {
     auto dst = to_uvec(shape_f());
     std::string out = "ok shape=" + fmtu(dst) + " idx=";
+    if (at_arg()) return out + fmtu(to_uvec(index_f(*at_arg())));
     size_t n = numel_sat(dst, MAX_ELEMS);
     if (n > MAX_ELEMS) return out + "big";
     if (n == 0) return out + "[]";
